@@ -460,6 +460,21 @@ func (g *Gen) genC20(n int) error {
 		g.emit("ref close %s", o)
 		g.emit("ref mapped %s", o)
 	}
+	// the last references dropped by several goroutines at the same moment
+	for c := 0; c < g.tierN(40, 400); c++ {
+		g.emit("note case last%d", c)
+		o := g.fresh("o")
+		g.emit("open %s %s", o, f)
+		g.alias(o, s)
+		k := 2 + g.r.Intn(7)
+		for j := 0; j < k-1; j++ {
+			g.emit("ref addref %s", o)
+		}
+		g.emit("par %d ordered=1", k)
+		g.emit("ref %s %s", g.pick([]string{"decref", "close"}), o)
+		g.emit("endpar")
+		g.emit("ref mapped %s", o)
+	}
 	// in-memory segment: closing is harmless
 	g.emit("note case inmem")
 	g.emit("ref addref %s", s)
